@@ -243,6 +243,19 @@ def scenario(idx, classes, edges, statements, methods, defs, abstract=(), shapes
         if scall.get(m) == "class" and smeth.get(m, "free") == "free":
             return "method_class(int, m%d, (%s)%s)::fn" % (m, _mparams(shape_of(m, vp), vp, pol), polarg)
         return mname(m)
+    # twin: the same classes and (for methods whose signature does not name the policy) the SAME definition functions registered
+    # in a second policy as well: what one policy holds must not depend on what the other one registered
+    twin = style.get("twin") if pol == 0 else None
+    tw_methods = [(m, vp) for m, vp in methods if twin and set(shape_of(m, vp)) <= set("VWN") and smeth.get(m, "free") != "static"]
+    tw_defs = [(m, d, vp) for m, d, vp in defs if any(m == tm for tm, _ in tw_methods) and sdef.get((m, d), "plain") in ("api_fun", "api_fun0")]
+    if twin:
+        targ = ", " + POLS[twin]
+        o.append("register_classes(%s%s);" % (", ".join("K%d" % c for c in classes), targ))
+        for m, vp in tw_methods:
+            o.append("declare_method(int, mt%d, (%s)%s);" % (m, _mparams(shape_of(m, vp), vp, 0), targ))
+            o.append("using MT%d = method_class(int, mt%d, (%s)%s);" % (m, m, _mparams(shape_of(m, vp), vp, 0), targ))
+        for m, d, vp in tw_defs:
+            o.append("static MT%d::add_function<f%d_%d> YOMM2_GENSYM;" % (m, m, d))
     if style.get("late_reg"):
         o.extend(regs)
     o.append("void run() {")
@@ -273,6 +286,16 @@ def scenario(idx, classes, edges, statements, methods, defs, abstract=(), shapes
                  (pol, idx * 100 + m, d, str(list(vp)).replace(" ", "")))
     if style.get("late_reg"):
         o.extend(cls_events)
+    if twin:
+        for i, c in enumerate(classes):
+            o.append('    std::printf("{\\"e\\":\\"class\\",\\"p\\":%d,\\"r\\":%d,\\"c\\":%d,\\"bases\\":%s,\\"abs\\":%s}\\n");' %
+                     (twin, idx * 1000 + 800 + i, c, str([b for b in classes if b in anc[c]]).replace(" ", ""), "true" if c in abstract else "false"))
+        for m, vp in tw_methods:
+            o.append('    std::printf("{\\"e\\":\\"method\\",\\"p\\":%d,\\"m\\":%d,\\"shape\\":\\"%s\\",\\"vp\\":%s,\\"so\\":-1}\\n");' %
+                     (twin, idx * 100 + 50 + m, shape_of(m, vp), str(list(vp)).replace(" ", "")))
+        for m, d, vp in tw_defs:
+            o.append('    std::printf("{\\"e\\":\\"def\\",\\"p\\":%d,\\"m\\":%d,\\"d\\":%d,\\"vp\\":%s}\\n");' %
+                     (twin, idx * 100 + 50 + m, d, str(list(vp)).replace(" ", "")))
     o.append("}")
     # registration objects that come and go at run time (a library loaded, unloaded and loaded again): further records for
     # classes that are registered already, held in optionals
@@ -323,6 +346,17 @@ def scenario(idx, classes, edges, statements, methods, defs, abstract=(), shapes
             o.append('      { g_via_next = true; int o = call([&] { return %s(%s); }); g_via_next = false; rows += (rows.empty() ? "" : ",") + std::string("[%d,") + std::to_string(o) + "," + std::to_string(o) + "]"; }' % (callee(m, vp), args, d))
         skipped = [d for mm, d, dvp in defs if mm == m and all(x not in abstract for x in dvp) and sdef.get((m, d), "plain") not in CAN_FORWARD]
         o.append('      std::printf("{\\"e\\":\\"next\\",\\"p\\":%d,\\"m\\":%d,\\"concrete\\":true,\\"skip\\":%s,\\"rows\\":[%%s]}\\n", rows.c_str()); }' % (pol, idx * 100 + m, str(skipped).replace(" ", "")))
+    if twin:
+        import itertools as _it
+        for m, vp in tw_methods:
+            o.append('    { std::string rows;')
+            cov = [[x for x in concrete if v in anc[x]] for v in vp]
+            for t in _it.product(*cov):
+                args = _args(shape_of(m, vp), vp, t, 0, idx + m)
+                o.append('      { g_err = ErrRec(); int o = call([&] { return mt%d(%s); }); rows += (rows.empty() ? "" : ",") + std::string("[%s,") + std::to_string(o) + "," + (o >= 0 ? std::string("[]") : err_json(cls)) + "]"; }' %
+                         (m, args, str(list(t)).replace(" ", "")))
+            o.append('      std::printf("{\\"e\\":\\"ctable\\",\\"p\\":%d,\\"m\\":%d,\\"shape\\":\\"%s\\",\\"concrete\\":true,\\"rows\\":[%%s]}\\n", rows.c_str()); }' %
+                     (twin, idx * 100 + 50 + m, shape_of(m, vp)))
     o.append("}")
     o.append("} // namespace")
     return "\n".join(o)
@@ -394,7 +428,8 @@ def program(name, scenarios, staged=False):
       3  application compiled with slots.hpp whose dispatch data is installed by the generated tables.hpp (update never runs)
       4  application without static offsets whose dispatch data is installed by tables.hpp"""
     o = [gen.PRELUDE, COMMON]
-    pols = sorted(set(((sc[8] if len(sc) > 8 and sc[8] else {}).get("pol", 0)) for sc in scenarios))
+    pols = sorted(set(((sc[8] if len(sc) > 8 and sc[8] else {}).get("pol", 0)) for sc in scenarios) |
+                  set(sc[8]["twin"] for sc in scenarios if len(sc) > 8 and sc[8] and sc[8].get("twin") and sc[8].get("pol", 0) == 0))
     if staged:
         assert pols == [0]
         o.append("#include <fstream>\n#include <yorel/yomm2/generator.hpp>\n#include <yorel/yomm2/decode.hpp>")
